@@ -212,7 +212,7 @@ def ch_periods(ctx) -> Channel:
             # `ok <nl> <periods>`: nl is the float loop count the driver computed (a model parameter)
             _, nl, rest = mo.split(" ", 2)
             mo = "ok " + rest
-            D = sum(p["duration_us"] for p in rec["defn"]["periods"])
+            D = sum((p["duration_us"] + 500) // 1000 * 1000 for p in rec["defn"]["periods"])
             F = b.E_us - b.tsbd_s * 10 ** 6
             ch.count("loop-count:float==exact-floor" if int(nl) == F // D else
                      "loop-count:float==exact-floor-1" if int(nl) == F // D - 1 else "loop-count:other")
@@ -220,7 +220,8 @@ def ch_periods(ctx) -> Channel:
                 ch.count("loop-count:HYPOTHESIS nl*D<=F VIOLATED")
         ch.count(f"{rec['mode']}:periods={'1' if n == 1 else '2-4' if n <= 4 else '5-20' if n <= 20 else '>20'}")
         if rec["mode"] == "live" and b.E_us is not None:
-            loops = (b.E_us - b.tsbd_s * 10 ** 6) // max(1, sum(p["duration_us"] for p in rec["defn"]["periods"]))
+            loops = (b.E_us - b.tsbd_s * 10 ** 6) // max(1, sum((p["duration_us"] + 500) // 1000 * 1000
+                                                                for p in rec["defn"]["periods"]))
             ch.count(f"live:loops={'0' if loops == 0 else '1-99' if loops < 100 else '100-1e6' if loops < 10 ** 6 else '>1e6'}")
         if n >= 2:
             ch.nontrivial.add((json.dumps(rec["defn"], sort_keys=True), rec["mode"], tuple(rec["query"]), rec["now"]))
@@ -348,6 +349,71 @@ def _check_from(track, i0, sn, fetches, admitted_n, what):
                 return {"kind": "decode-time-gap", "k": k, "request": f["url"],
                         "what": f"{what}: number {sn + k} has decode time {f['tfdt']}, previous ends at {prev['tfdt'] + prev['total']}"}
     return None
+
+
+def timeline_str(raw):
+    if not raw:
+        return "-"
+    return ";".join(f"{'-' if t is None else t}:{d}:{r + 1}" for t, d, r in raw)
+
+
+def oracle_period_timeline(c12_lib, track, start_us, sn, entries, fetches, dur_us, ts, past, what):
+    """property text for a Period addressed by SegmentTimeline + $Time$: the listed segments are
+    what the Period's duration admits.  `entries` = expanded [(t, d)], `fetches` = {j: fetch of
+    $Time$=t_j}, `past` = fetch of the time just after the last entry (or None)."""
+    if not entries:
+        return {"kind": "timeline-empty", "what": f"{what}: the Period lists no segment"}
+    if entries[0][0] != 0:
+        return {"kind": "decode-time-not-zero", "what": f"{what}: first listed time is {entries[0][0]}"}
+    for j in range(len(entries) - 1):
+        if entries[j][0] + entries[j][1] != entries[j + 1][0]:
+            return {"kind": "decode-time-gap", "j": j, "what": f"{what}: listed entry {j + 1} does not start where entry {j} ends"}
+    for j, (t, d) in enumerate(entries):
+        if t * 1_000_000 >= dur_us * ts:
+            return {"kind": "timeline-overlisted", "j": j,
+                    "what": f"{what}: listed time {t} is not inside the Period ({dur_us}us at {ts})"}
+    f0 = fetches.get(0)
+    cands = c12_lib.nearest_candidates(track.durs, track.ts, start_us, track.ref_ts)
+    if f0 is None:
+        return None
+    if f0["status"] != 200:
+        return {"kind": "admitted-not-retrievable", "j": 0, "request": f0["url"],
+                "what": f"{what}: first listed time answered {f0['status']}"}
+    options = sorted(src_set(track, f0["sha"]) & cands)
+    if not options:
+        return {"kind": "wrong-source-segment", "j": 0, "request": f0["url"],
+                "what": f"{what}: $Time$=0 delivers stored segment {sorted(src_set(track, f0['sha']))}, "
+                        f"nearest start(s) to the offset: {sorted(cands)}"}
+    n = len(track.durs)
+    fail = None
+    for i0 in options:
+        fail = None
+        for j in sorted(fetches):
+            f = fetches[j]
+            t, d = entries[j]
+            if f["status"] != 200:
+                fail = {"kind": "admitted-not-retrievable", "j": j, "request": f["url"],
+                        "what": f"{what}: listed $Time$={t} answered {f['status']}"}
+            elif i0 + j not in src_set(track, f["sha"]):
+                fail = {"kind": "wrong-source-segment", "j": j, "request": f["url"],
+                        "what": f"{what}: $Time$={t} delivers stored segment {sorted(src_set(track, f['sha']))}, expected {i0 + j}"}
+            elif f["tfdt"] != track.st + t or f["total"] != d:
+                fail = {"kind": "timeline-mismatch", "j": j, "request": f["url"],
+                        "what": f"{what}: listed S t={t} d={d}, served tfdt={f['tfdt']} duration={f['total']}"}
+            if fail:
+                break
+        if fail is None:
+            k = len(entries)
+            covered = (entries[-1][0] + entries[-1][1]) * 1_000_000 >= dur_us * ts
+            if not covered and i0 + k != n:
+                fail = {"kind": "timeline-incomplete",
+                        "what": f"{what}: {k} segments listed from stored segment {i0}: they neither cover the Period nor reach the end of the source"}
+            elif past is not None and i0 + k >= n and past["status"] != 404:
+                fail = {"kind": "beyond-end-not-404", "request": past["url"],
+                        "what": f"{what}: the time after the last source segment answered {past['status']}"}
+        if fail is None:
+            return None
+    return fail
 
 
 # ------------------------------------------------------------------ channel `mps_offsets`
@@ -519,7 +585,7 @@ def e2e_case(app, client, clock, c12_lib, defn, mode, query, now, rng, per_perio
     if r.status_code != 200:
         return [], [{**base, "kind": "manifest-status", "what": f"manifest answered {r.status_code}"}], {}
     mpd = segwalk.parse_mpd("http://localhost" + url, r.data)
-    failures, records = [], []
+    failures, records, tl_records = [], [], []
     stats = {"periods": len(mpd.periods)}
     # ---- the period list (text values, as a client reads them)
     plist = [(i, s if s is not None else 0, d) for i, s, d in mpd.periods]
@@ -551,7 +617,8 @@ def e2e_case(app, client, clock, c12_lib, defn, mode, query, now, rng, per_perio
         for rp in reps:
             t = trk.get(rp.rep_id)
             what = f"Period {per_id} ({p.stream} @{p.start_us}us +{per_dur}us) {rp.rep_id}"
-            if t is None or rp.media is None or "$Number$" not in rp.media or not rp.duration:
+            if t is None or rp.media is None or not rp.duration or \
+                    ("$Number$" not in rp.media and not ("$Time$" in rp.media and rp.timeline is not None)):
                 failures.append({**base, "kind": "unexpected-representation", "what": what})
                 continue
             ini = segwalk.get(client, rp.init_url())
@@ -559,6 +626,29 @@ def e2e_case(app, client, clock, c12_lib, defn, mode, query, now, rng, per_perio
             if ini.status_code != 200:
                 failures.append({**base, "kind": "init-not-retrievable", "request": rp.init_url(),
                                  "what": f"{what}: init segment answered {ini.status_code}"})
+            if "$Time$" in rp.media:
+                # SegmentTimeline addressing: the admitted segments are the listed ones.  The last live
+                # Period is written without @duration: its extent is the defined (presentation) duration
+                pdur = per_dur if per_dur is not None else c12_lib.quantise(p.duration_us)
+                entries = rp.timeline
+                js = set(range(len(entries))) if (len(entries) <= 6 or exhaustive) else \
+                    {0, 1, 2, len(entries) - 2, len(entries) - 1}
+                tf = {j: fetch_media(client, segwalk, mp4walk, rp.media_url(time=entries[j][0]), trex)
+                      for j in sorted(js)}
+                past = None
+                if entries:
+                    past = fetch_media(client, segwalk, mp4walk,
+                                       rp.media_url(time=entries[-1][0] + entries[-1][1]), trex)
+                fail = oracle_period_timeline(c12_lib, t, p.start_us, rp.start_number, entries, tf, pdur,
+                                              rp.timescale, past, what)
+                if fail:
+                    failures.append({**base, **fail})
+                tl_records.append((t, p, rp.timeline_raw))
+                for j, f in tf.items():
+                    records.append((t, p.start_us, ("t", entries[j][0]), f))
+                if past is not None:
+                    records.append((t, p.start_us, ("t", entries[-1][0] + entries[-1][1]), past))
+                continue
             A = c12_lib.admitted(rp.duration, rp.timescale, per_dur if per_dur is not None else 0)
             ks = set(range(A)) if (A <= 6 or exhaustive) else {0, 1, 2, A - 2, A - 1}
             if A > 8 and not exhaustive:
@@ -576,7 +666,8 @@ def e2e_case(app, client, clock, c12_lib, defn, mode, query, now, rng, per_perio
             if fail:
                 failures.append({**base, **fail})
             for k, f in fetches.items():
-                records.append((t, p.start_us, rp.start_number + k, f))
+                records.append((t, p.start_us, ("n", rp.start_number + k), f))
+    stats["timelines"] = tl_records
     return records, failures, stats
 
 
@@ -594,7 +685,7 @@ def ch_e2e(ctx) -> Channel:
         "end 404. Non-trivial = 200 media answer; distinct by (definition, mode, clock, representation, number)"))
     app, client, appboot, segchecks, c12_lib = _env()
     rng = ctx.rng("mps_e2e")
-    lines, recs = [], []
+    lines, recs, tl_lines, tl_recs = [], [], [], []
     with appboot.Clock("2023-01-01T00:00:00Z") as clock:
         for i in range(ctx.scale(18, 90)):
             defn = c12_lib.gen_inside(rng, app, n_periods=[1, 2, 3, 4, 2, 3, 2][i % 7])
@@ -606,25 +697,38 @@ def ch_e2e(ctx) -> Channel:
                     q, _ = c12_lib.gen_live_query(rng, now, defn.total_us())
                     q.append(f"depth={c12_lib.depth_for(rng, defn, 30)}")
                     runs.append(("live", q, now))
+                runs += [(m, q + ["timeline=1"], c12_lib.gen_clock(rng) if m == "vod" else nw)
+                         for m, q, nw in list(runs) if rng.random() < .6]
                 for mode, q, now in runs:
                     records, failures, stats = e2e_case(
                         app, client, clock, c12_lib, defn, mode, q, now, rng,
                         per_period=ctx.scale(3, 5), max_periods=ctx.scale(4, 7))
-                    ch.count(f"{mode}:manifests")
+                    ch.count(f"{mode}:{'timeline' if 'timeline=1' in q else 'number'}:manifests")
+                    for t, p, raw in stats.get("timelines", []):
+                        tl_lines.append(f"mpstimeline {t.durs_arg()} {t.R} {t.ts} {t.ref_ts} {p.start_us} {p.duration_us}")
+                        tl_recs.append((t, p, timeline_str(raw), mode, iso(now)))
                     n = stats.get("periods", 0)
                     ch.count(f"{mode}:periods={'1' if n == 1 else '2-4' if n <= 4 else '5-20' if n <= 20 else '>20'}")
                     for f in failures:
                         ch.oracle_failures.append(f)
-                    for t, start_us, num, f in records:
-                        lines.append(model_line(t, start_us, "n", num))
-                        recs.append((t, start_us, num, f, mode, iso(now), defn.name))
+                    for t, start_us, (kind, val), f in records:
+                        lines.append(model_line(t, start_us, kind, val))
+                        recs.append((t, start_us, (kind, val), f, mode, iso(now), defn.name))
             finally:
                 c12_lib.delete(app, defn)
+    for (t, p, impl, mode, now), mo, line in zip(tl_recs, _driver(ch, tl_lines), tl_lines):
+        ch.evaluations += 1
+        ch.count("timeline:" + ("single-S" if impl.count(";") == 0 else "several-S"))
+        if impl != "-":
+            ch.nontrivial.add((line, mode, now))
+        if mo is not None and mo != impl:
+            ch.disagreements.append({"line": line[:300], "file": t.name, "period": p.json(), "mode": mode,
+                                     "model": mo[:300], "impl": impl[:300]})
     model = _driver(ch, lines)
     for (t, start_us, num, f, mode, now, name), mo, line in zip(recs, model, lines):
         ch.evaluations += 1
         impl = impl_str(t, f, mo)
-        ch.count(f"media:status={f['status']}")
+        ch.count(f"media:{'$Time$' if num[0] == 't' else '$Number$'}:status={f['status']}")
         ch.count(f"stream={t.stream}")
         ch.count("offset:on-segment-start" if any(start_us * t.ts == p * 1_000_000 for p in _starts(t))
                  else "offset:off-boundary")
@@ -632,9 +736,9 @@ def ch_e2e(ctx) -> Channel:
         if f["status"] == 200:
             ch.nontrivial.add((name, mode, now, t.name, num))
         if mo is not None and mo != impl:
-            ch.disagreements.append({"line": line[:300], "file": t.name, "start_us": start_us, "number": num,
+            ch.disagreements.append({"line": line[:300], "file": t.name, "start_us": start_us, "request": list(num),
                                      "mode": mode, "model": mo, "impl": impl, "url": f["url"]})
-        ch.sample({"file": t.name, "start_us": start_us, "number": num, "impl": impl}, limit=4)
+        ch.sample({"file": t.name, "start_us": start_us, "request": list(num), "impl": impl}, limit=4)
     return ch
 
 
